@@ -179,12 +179,67 @@ class SetArgs:
         }
 
 
-@contract("json_to_models/cli.py::process_path", props=["C16"], verify=False)
+@contract("json_to_models/cli.py::path_split", props=[], verify=False)
+class PathSplit:
+    """the components of a path (assumed: a pure function of the text; os.path.split is external)"""
+    sorts = {"path": "str", "result": "list", "result[]": "str"}
+    deterministic = True
+
+    def ensures(self, path, result):
+        return {"strs": ty_is(result, list) and forall(range(seq_len(result)), lambda i: ty_is(at(result, i), str))}
+
+
+@assumed("itertools.takewhile", props=[])
+class TakeWhile:
+    """takewhile(pred, xs): the longest prefix of xs whose elements all satisfy pred"""
+    sorts = {"a1": "list", "result": "list"}
+
+    def ensures(self, a0, a1, result):
+        return {"is_prefix": ty_is(result, list) and seq_len(result) <= seq_len(a1) and forall(range(seq_len(result)), lambda i: at(result, i) is at(a1, i) and truthy(a0(sval(at(a1, i))))),
+                "maximal": implies(seq_len(result) < seq_len(a1), not truthy(a0(sval(at(a1, seq_len(result)))))),
+                # lists are values in this model (S5): the prefix of full length is the list
+                "whole_list_when_nothing_stops_it": implies(seq_len(result) == seq_len(a1), result is a1)}
+
+
+@assumed("os.path.join", props=[])
+class OsPathJoin:
+    sorts = {"a0": "list", "result": "str"}
+    deterministic = True
+
+
+@assumed("Path", props=[])
+class PathCtor:
+    sorts = {"a0": "str", "result": "any"}
+    deterministic = True
+
+
+@assumed("method:glob", props=[])
+class PathGlob:
+    sorts = {"result": "list"}
+
+    def raises(self, a0, a1):
+        return {"*": True}
+
+
+@spec
+def no_glob_chars(part):
+    return not ("*" in sval(part)) and not ("?" in sval(part))
+
+
+@contract("json_to_models/cli.py::process_path", props=["C16", "C17"])
 class ProcessPath:
-    sorts = {"path": "str", "result": "list"}
+    """C16/C17: a path none of whose components contains `*` or `?` names exactly one file - it is returned as is (never globbed, so a
+    missing file is reported by the loader and a literal `[` is not a character class); only a real pattern is expanded."""
+    sorts = {"path": "any", "result": "any", "split_path": "list", "clean_path": "any", "pattern_path": "any"}
 
     def raises(self, path):
         return {"*": True}
+
+    def ensures(self, path, result):
+        parts = path_split(path)
+        literal = forall(range(seq_len(parts)), lambda i: no_glob_chars(at(parts, i)))
+        return {"literal_path_is_one_file": implies(literal and seq_len(parts) > 0,
+                                                    seq_len(result) == 1 and at(result, 0) is ext("Path", ext("os.path.join", parts)))}
 
 
 @contract(CLI + ".setup_models_data", props=["C16", "C17"], abstract=True)
